@@ -27,6 +27,34 @@ Example C03_nonvacuous :
   uleb_value [255; 255; 255; 255; 127] = 4294967295 /\ sleb_value [128; 128; 128; 128; 120] = -2147483648.
 Proof. exact wf_examples. Qed.
 
+(* the writers: every 32-bit value is written as a well-formed encoding of that value ... *)
+Require Import V.Dex.LebWrite.
+Theorem C03_write_unsigned : forall v, 0 <= v < 4294967296 ->
+  exists bs, write_u v = Ok bs /\ wf_leb bs = true /\ uleb_value bs = v.
+Proof. exact write_u_spec. Qed.
+Print Assumptions C03_write_unsigned.
+
+Theorem C03_write_signed : forall v, -2147483648 <= v < 2147483648 ->
+  exists bs, write_s v = Ok bs /\ wf_leb bs = true /\ sleb_value bs = v.
+Proof. exact write_s_spec. Qed.
+Print Assumptions C03_write_signed.
+
+(* ... so encoding then decoding returns the value, whatever follows in the buffer (uleb128p1 included) *)
+Theorem C03_roundtrip_unsigned : forall v r, 0 <= v < 4294967296 ->
+  exists bs, write_u v = Ok bs /\ read_u (bs ++ r) = Ok (v, r).
+Proof. exact write_read_u. Qed.
+Print Assumptions C03_roundtrip_unsigned.
+
+Theorem C03_roundtrip_unsigned_p1 : forall v r, -1 <= v < 4294967295 ->
+  exists bs, write_u (v + 1) = Ok bs /\ read_up1 (bs ++ r) = Ok (v, r).
+Proof. exact write_read_up1. Qed.
+Print Assumptions C03_roundtrip_unsigned_p1.
+
+Theorem C03_roundtrip_signed : forall v r, -2147483648 <= v < 2147483648 ->
+  exists bs, write_s v = Ok bs /\ read_s (bs ++ r) = Ok (v, r).
+Proof. exact write_read_s. Qed.
+Print Assumptions C03_roundtrip_signed.
+
 (* the tie: the syntax tree serialised from the working tree, run by PyLite, is the model *)
 Require Import V.Lib.PyLite V.gen.Gen_Leb V.Dex.LebTie.
 Theorem C03_source_is_model_read_unsigned : forall bs, py_read src_readuleb128 bs = read_u bs.
